@@ -177,12 +177,11 @@ func (s *vC07Sys) newMap(rc *vC07Restart) {
 		}
 		act = append(act, oc)
 	}
-	cfg := &CircuitMapConfig{
-		DB: s.db,
-		FetchAllOpenChannels: func() ([]*chanstate.OpenChannel, error) {
+	s.newMapWith(
+		func() ([]*chanstate.OpenChannel, error) {
 			return act, nil
 		},
-		FetchClosedChannels: func(pendingOnly bool) ([]*chanstate.ChannelCloseSummary, error) {
+		func(pendingOnly bool) ([]*chanstate.ChannelCloseSummary, error) {
 			var out []*chanstate.ChannelCloseSummary
 			for _, c := range closedSet {
 				if pendingOnly && c[1] == 0 {
@@ -194,7 +193,19 @@ func (s *vC07Sys) newMap(rc *vC07Restart) {
 				})
 			}
 			return out, nil
-		},
+		}, res)
+}
+
+// newMapWith builds a new circuit map on the same database with the given
+// channel-database views (fabricated records in the seeded cases, REAL channeldb
+// records in the channel-identity cases of verif_circuit_ident_test.go).
+func (s *vC07Sys) newMapWith(fetchOpen func() ([]*chanstate.OpenChannel, error),
+	fetchClosed func(bool) ([]*chanstate.ChannelCloseSummary, error), res map[CircuitKey]bool) {
+
+	cfg := &CircuitMapConfig{
+		DB:                   s.db,
+		FetchAllOpenChannels: fetchOpen,
+		FetchClosedChannels:  fetchClosed,
 		ExtractErrorEncrypter: func(*btcec.PublicKey) (hop.ErrorEncrypter, lnwire.FailCode) {
 			return NewMockObfuscator(), lnwire.CodeNone
 		},
@@ -377,6 +388,9 @@ func TestVerifCircuit(t *testing.T) {
 	only := vEnvInt("VERIF_C07_ONLY", -1)
 	// Scripted witness histories (Circuit/Examples.v, RestartProofs.v): replayed on
 	// the real circuitMap in every run; case ids 100000+.
+	// Channel-identity cases (verif_circuit_ident_test.go): REAL channeldb records of
+	// every identity kind behind FetchAllOpenChannels/FetchClosedChannels; ids 200000+.
+	vC07IdentCases(t, out, master, only)
 	for wi, w := range vC07Witnesses() {
 		ci := 100000 + wi
 		if only >= 0 && int64(ci) != only {
